@@ -109,11 +109,11 @@ CLAIMED = {
         "different outcomes (L1) that no two order-isomorphic states (column, levels) take them: block structure depends on relative indentation only, so a consistent re-indentation "
         "(2 / 4 spaces, tabs as 4 columns) takes the same decision on every line. A deviation is confirmed natively before it is reported: one program in 11 layouts (2 / 3 / 8 spaces, "
         "tabs, CRLF, trailing spaces, blank lines, comments, line breaks in brackets) must parse to the same span-free AST and an ill-indented program must be refused (`replay lexlayout`, dev and release). "
-        "X-indent_count: the WHOLE of handle_indentation on the next N = 3 (thorough 5) symbolic characters of the source (any scalar value; Lexer::peek / advance / is_at_end replaced by a "
+        "X-indent_count: the WHOLE of handle_indentation on the next N = 3 (thorough 7) symbolic characters of the source (any scalar value; Lexer::peek / advance / is_at_end replaced by a "
         "character-stream stand-in) and stacks [0, a], [0, a, b]: z3 decides for every path that its outcome is that of a reference written as nested ite terms - space = 1 column, tab = 4, "
         "CR = 0; a line starting (after white space) with `#` or a line feed is invisible (no token, no level change, still at line start, consumed through its line feed); nothing at end of "
         "input; otherwise the documented decision for the counted column, the line's first character left unconsumed. X-scan_layout: one call of scan_token from an arbitrary layout state "
-        "(pending_dedents, at_line_start, bracket_depth symbolic) on N = 2 (thorough 3) symbolic characters, against a reference in SMT: a pending dedent is emitted alone; at line start only "
+        "(pending_dedents, at_line_start, bracket_depth symbolic) on N = 2 (thorough 5) symbolic characters, against a reference in SMT: a pending dedent is emitted alone; at line start only "
         "handle_indentation runs; after spaces / tabs a line feed emits one NEWLINE and sets at_line_start iff bracket_depth = 0 and does nothing inside brackets; CR does nothing; a comment "
         "emits nothing and stops before its line feed; brackets move the depth by one. X-eof_dedents: the part of tokenize after the scanning loop, for 1..=4 (thorough 8) open levels: "
         "levels - 1 DEDENTs, then one EOF, Ok iff no error was recorded. X-layout_frame (frame condition read from the MIR text, no solver query): the four layout fields are written only by "
